@@ -2630,6 +2630,17 @@ class Interp:
         else:
             cur = self.ev(st, tgt, tree)
         o = self.obj(cur)
+        if isinstance(o, HList) and op == "Add" and getattr(o, "tuple_acc", None) is not None:
+            if y[0] == "call" and y[1] in ("tuple", "list") and len(y[2]) == 1 and not y[3]:
+                y = y[2][0]         # the elements of the argument, in order
+            if isinstance(tgt, ast.Name) and o.tuple_acc == (self.stack[-1].id if self.stack else 0, tgt.id):
+                tree.append(("mutate", cur, "extend", (self._strip_or_empty(y),), s.lineno))     # the loop's own accumulator
+                return Outcome(live=st)
+            # a tuple someone else holds as well: ``+=`` makes a new one and rebinds the name
+            new = self.new_list([("s", cur), ("s", y)], s, tree)
+            self.obj(new).tuple_acc = (0, None)
+            self.assign(st, tgt, new, tree, s.lineno)
+            return Outcome(live=st)
         if isinstance(o, HList) and op == "Add":
             tree.append(("mutate", cur, "extend", (self._strip_or_empty(y),), s.lineno))
             return Outcome(live=st)
@@ -2679,6 +2690,11 @@ class Interp:
                 if isinstance(n, ast.Name) and isinstance(n.ctx, ast.Store):
                     out.add(n.id)
         return out
+
+    @staticmethod
+    def _add_only(stmts, nm) -> bool:
+        return all(isinstance(n.op, ast.Add) for s_ in stmts for n in ast.walk(s_)
+                   if isinstance(n, ast.AugAssign) and isinstance(n.target, ast.Name) and n.target.id == nm)
 
     @staticmethod
     def _aug_only_names(stmts) -> set:
@@ -2778,6 +2794,17 @@ class Interp:
         cons = {k for k in f.env if "^" in k} if self._yields_inside(s.body) else set()
         names = names | cons
         for nm in sorted(names):
+            v0 = f.env.get(nm, NONE)
+            if nm in aug_only and self._add_only(s.body, nm) and ((v0[0] == "tuple") or getattr(self.obj(v0), "tuple_acc", None) is not None):
+                # a tuple the loop only ever extends (``acc += tuple(more)``): every iteration makes a longer tuple that starts with
+                # the previous one.  Modelled as one sequence of its own, allocated here as a copy of the value the loop starts
+                # from and extended where the loop says - the value read at any point is the prefix built so far
+                acc = self.new_list([("e", x) for x in v0[1]] if v0[0] == "tuple" else [("s", v0)], s, tree)
+                self.obj(acc).tuple_acc = (self.stack[-1].id if self.stack else 0, nm)
+                f.env[nm] = acc
+                st.env[nm] = acc
+                names = names - {nm}
+                continue
             if nm in aug_only and isinstance(self.obj(f.env.get(nm, NONE)), HList):
                 # ``xs += ys`` on a list object mutates it in place and rebinds the same object
                 names = names - {nm}
